@@ -26,7 +26,8 @@ for name in ('allreduce', 'allreduce_bucketed'):
         requires=COMM_PRE, raises=NONSQUARE,
         ensures=[
             ('single_member_group_is_identity', 'implies(group_size(group) == 1, result is tensor and trace() == old(trace()))'),
-            ('future_otherwise', 'implies(group_size(group) != 1, is_future(result) and result.will_be is not None)'),
+            ('future_otherwise', 'implies(group_size(group) != 1, is_future(result) and result.will_be is not None and is_fresh(result) '
+                                 'and (result.will_be is tensor or is_fresh(result.will_be)))'),
             ('value', 'implies(group_size(group) != 1, val(result.will_be) == reduced(old(val(tensor)), old(tensor.shape), group, average, symmetric))'),
             ('shape_and_dtype', 'implies(group_size(group) != 1, result.will_be.shape == old(tensor.shape) '
                                 'and result.will_be.dtype is old(tensor.dtype) and result.will_be.device is old(tensor.device))'),
@@ -45,7 +46,8 @@ contract(
     requires=COMM_PRE + [('root_is_member', 'rank_in_group(src, group)')], raises=NONSQUARE,
     ensures=[
         ('single_member_group_is_identity', 'implies(group_size(group) == 1, result is tensor and trace() == old(trace()))'),
-        ('future_otherwise', 'implies(group_size(group) != 1, is_future(result) and result.will_be is not None)'),
+        ('future_otherwise', 'implies(group_size(group) != 1, is_future(result) and result.will_be is not None and is_fresh(result) '
+                             'and (result.will_be is tensor or is_fresh(result.will_be)))'),
         ('root_keeps_its_value', 'implies(group_size(group) != 1 and my_rank() == src and not symmetric, val(result.will_be) == old(val(tensor)))'),
         ('shape_and_dtype', 'implies(group_size(group) != 1, result.will_be.shape == old(tensor.shape) '
                             'and result.will_be.dtype is old(tensor.dtype) and result.will_be.device is old(tensor.device))'),
